@@ -51,6 +51,17 @@ def long_files(count, rng, nframes):
     return out
 
 
+def malformed_runs(rng):
+    """a long run of consecutive records that do not parse (150 and 700 of them), then good ones: "skips malformed ones" has no limit"""
+    out = []
+    for k, n in enumerate((150, 700)):
+        fr = [{"cls": "Good", "ts": [1, 0], "pkt": 0}] + [{"cls": rng.choice(["Malformed", "Empty"]), "ts": [2, j % 1000], "pkt": j % NSHAPES} for j in range(n)] + \
+             [{"cls": "Good", "ts": [3, 1], "pkt": 1}, {"cls": "Good", "ts": [3, 2], "pkt": 2}]
+        for lt in ("EN10MB", "RAW", "LINUX_SLL"):
+            out.append({"lt": lt, "filter": 0, "frames": fr, "calls": [{"api": "next", "k": 0}, {"api": ["iter", "loop", "next"][k % 3], "k": 0}, {"api": "next", "k": 0}]})
+    return out
+
+
 def walks(count, rng):
     """seeded descriptions over the same alphabet as CaptureGen with more arbitrary-byte frames"""
     out = []
@@ -126,7 +137,7 @@ def run(tier):
     wl = walks(1500 if quick else 30000, rng)
     lf = long_files(3 if quick else 42, rng, 1000)
     probe = library_mapping_probe()
-    scen = bfs + [usable(x, i) for i, x in enumerate(sim + wl + lf)] + probe
+    scen = bfs + [usable(x, i) for i, x in enumerate(sim + wl + lf + malformed_runs(rng))] + probe
     p = vlib.Pipeline(PROP, "capture_file", "capture/CaptureTrace")
     chunk = 25000
     traces = []
